@@ -174,6 +174,16 @@ pub fn outline(c: &mut Chooser, task: &ExternalTask) -> Vec<Entry> {
                         shadow,
                     );
                 }
+                // one lemma in four has two more parameters (general variables U and W, closed by anthem or listed
+                // in the quantifier): the base case and the step quantify over all of them
+                if c.data.len() > 80 && c.aux(45 + i as u64, 4) == 0 {
+                    let q = known[c.aux(46 + i as u64, known.len())].clone();
+                    f = g::bin(
+                        fol::BinaryConnective::Disjunction,
+                        f,
+                        g::bin(fol::BinaryConnective::Implication, atom(&q, vec![gv("U")]), g::bin(fol::BinaryConnective::Disjunction, atom(&q, vec![gv("W")]), atom(&q, vec![gv("U")]))),
+                    );
+                }
                 let with_y = c.flag(1, 3);
                 if with_y {
                     // another variable: Y, or a general variable that shares its name with the induction variable
@@ -225,7 +235,7 @@ pub fn outline(c: &mut Chooser, task: &ExternalTask) -> Vec<Entry> {
     entries
 }
 
-const DEFECTS: [&str; 12] = [
+const DEFECTS: [&str; 13] = [
     "none",
     "not-an-equivalence",
     "lhs-not-an-atom",
@@ -238,6 +248,7 @@ const DEFECTS: [&str; 12] = [
     "rhs-predicate-not-yet-defined",
     "predicate-of-the-task-after-renaming",
     "predicate-mentioned-by-earlier-lemma",
+    "extra-quantified-variable-in-body",
 ];
 
 /// a definition with exactly one defect (the rest of the outline stays valid)
@@ -262,6 +273,16 @@ fn defective_definition(c: &mut Chooser, task: &ExternalTask, defect: &str, earl
             let o = task.names.outputs.iter().find(|p| p.1 == 1).map(|p| p.0.clone()).unwrap_or(inp.clone());
             one(eqv(atom(&o, vec![x()]), ok_body))
         }
+        // `forall X Y (bad(X) <-> in(Y) and X > Y)`: the slip for `exists Y`; not a definition of bad/1 - it
+        // also says that in/1 has no two elements below each other's bounds (a claim about the task)
+        "extra-quantified-variable-in-body" => g::quant(
+            true,
+            vec![v("X", fol::Sort::General), v("Y", fol::Sort::General)],
+            eqv(
+                atom("bad", vec![x()]),
+                g::bin(fol::BinaryConnective::Conjunction, atom(&inp, vec![gv("Y")]), cmp(x(), fol::Relation::Greater, gv("Y"))),
+            ),
+        ),
         "predicate-defined-earlier" => one(eqv(atom(&earlier[0], vec![x()]), ok_body)),
         _ => one(eqv(atom("bad", vec![x()]), atom("not_yet_defined", vec![x()]))),
     };
@@ -353,7 +374,7 @@ impl Check for C13 {
             gt::choices(180),
             // (longer than the 80 of the recorded replays: shapes added later are switched on by the length)
             gt::choices(84),
-            prop_oneof![2 => Just(0u8), 1 => 1u8..12],
+            prop_oneof![2 => Just(0u8), 1 => 1u8..13],
             gt::choices(40),
         )
             .prop_map(|(task, outline, defect, interp)| Case { task, outline, defect, interp })
